@@ -92,6 +92,7 @@ pub fn run(seed: u64, n: usize, out: &mut Out, focus_tags: bool) {
         out.case(&format!("hnew\t{}\t{}", if optimize { 1 } else { 0 }, dumps.join("\t")), "ok", json!({"history": hist.clone()}), false);
         let mut tags: BTreeSet<String> = BTreeSet::new();
         let mut reloaded = false;
+        let mut saw_generichide = false;
         let long = r.pct(20);
         let steps = 3 + r.below(if long { 55 } else { 14 });
         for _ in 0..steps {
@@ -149,7 +150,11 @@ pub fn run(seed: u64, n: usize, out: &mut Out, focus_tags: bool) {
                 hist.push(json!("optimize"));
                 out.case("hopt", "ok", json!({"history": hist.clone()}), true);
             } else if k < 45 {
-                let line = if r.pct(60) { regexy_rule(&mut r) } else { gen::cluster(&mut r, &o).pop().unwrap() };
+                let line = if r.pct(8) {
+                    // a $generichide exception added incrementally (its own list in the blocker)
+                    saw_generichide = true;
+                    format!("@@||{}^$generichide", r.pick(&["cdn.test", "a.test", "x.test", "news.com"]))
+                } else if r.pct(60) { regexy_rule(&mut r) } else { gen::cluster(&mut r, &o).pop().unwrap() };
                 if is_complete_regex(&line) {
                     continue;
                 }
@@ -230,7 +235,7 @@ pub fn run(seed: u64, n: usize, out: &mut Out, focus_tags: bool) {
                     out.case(&format!("hchk\t{}\t{}", dump_store(&resources), q.dump), &show_verdict(&v), json!({"history": hist.clone(), "class": class}), nontrivial);
                 }
                 // cosmetic answers after the history equal those of the fresh engine
-                if r.pct(10) {
+                if r.pct(10) || saw_generichide {
                     let a = engine.url_cosmetic_resources(&u);
                     let b = fresh.url_cosmetic_resources(&u);
                     if a.generichide != b.generichide || a.hide_selectors != b.hide_selectors {
